@@ -1,4 +1,4 @@
-import MythVerif.Model.DagRec
+import MythVerif.Model.PiDag
 import Driver.Util
 /-! `drv_dag`: the DAG Recorder model (C18, C19) behind a line protocol.
 
@@ -6,15 +6,21 @@ import Driver.Util
   rec UMIN CMAX CMAXCOUNT NCT PRUNE      run the recorder model under these options -> root info
   leaves                                 est / in_edge_kind / first_ready_t of every interval
   flat                                   the flat-interval-list specification of the totals
+  dag NW                                 flatten the in-memory DAG of the last `rec` (dr_make_pi_dag) -> arrays
+  shrink UMIN CMAX CMAXCOUNT             dr_copy_pi_dag of the last `dag` with conversion-time options -> arrays
+  wf G|H  /  replay G|H  /  stat G|H     checker verdict, chronological replay counters, gen_stat totals
+                                         of the last `dag` (G) or `shrink` (H)
 -/
 namespace Driver.Dag
-open MythVerif MythVerif.DagRec
+open MythVerif MythVerif.DagRec MythVerif.PiDag
 
 structure St where
   v : Variant := .fixed
   startClock : Nat := 0
   tree : Tree := .group .task .nil
   dag : DNode := .ival {}
+  G : PiDag := {}
+  H : PiDag := {}
 
 def nkOf : Nat → NKind
   | 0 => .createTask | 1 => .waitTasks | 2 => .other | 3 => .endTask | 4 => .section | _ => .task
@@ -53,6 +59,41 @@ def showInfo (i : Info) : String :=
            i.cur, i.min, c.nChild].map toString
           ++ [toString c.worker, toString c.start.worker, toString c.end_.worker])
 
+def showNode (x : PNode) : String :=
+  let c := x.info.c
+  " N " ++ showInfo x.info ++ " " ++
+    joinSp ([c.start.pos.file, c.start.pos.line, c.end_.pos.file, c.end_.pos.line, x.eb, x.ee, x.a, x.b].map toString)
+
+def showDag (G : PiDag) : String :=
+  s!"dag {G.T.size} {G.E.size} {G.S.length} {G.nw}" ++
+    String.join (G.T.toList.map showNode) ++
+    String.join (G.E.toList.map fun e => s!" E {e.kind.toNat} {e.u} {e.v}") ++
+    String.join (G.S.map fun f => s!" S {f}")
+
+def showReplay (G : PiDag) : String :=
+  let r := replay G
+  let n := G.T.size
+  let idx := List.range n
+  let leaves := idx.countP fun i => isLeaf G.T[i]!
+  let once := idx.countP fun i => isLeaf G.T[i]! && r.started[i]! == 1 && r.ended[i]! == 1
+  let inner := idx.countP fun i => !isLeaf G.T[i]! && (r.started[i]! != 0 || r.ended[i]! != 0)
+  s!"replay {r.nev[0]!} {r.nev[1]!} {r.nev[2]!} {r.nev[3]!} {leaves} {once} {inner} {r.nRunning} {r.nReady} {r.t} {r.cumRunning} {r.cumReady} {r.nonMono} {r.queue.length}"
+
+def allEK : List EKind := [.end_, .create, .createCont, .waitCont, .otherCont]
+
+def showStat (G : PiDag) : String :=
+  let r := G.T[0]!.info
+  let nints := r.c.nc.total
+  s!"stat {statWork G} {r.c.tinf} {r.c.nc.create} {r.c.nc.wait} {r.c.nc.endT} {nints + r.c.nc.wait + r.c.nc.create + 1} {r.cur}" ++
+    String.join (allEK.map fun k => s!" {statEdgeTotal G k}") ++
+    String.join (allEK.map fun k => " M " ++ joinSp ((statEdgeMatrix G k).toList.map toString))
+
+def showWf (G : PiDag) : String :=
+  let r := wfReport G
+  s!"wf {wellFormed G} offsets={r.offsets} edgeEnds={r.edgeEnds} grouped={r.grouped} counted={r.counted} strings={r.strings} degrees={r.degrees} certificate={r.certificate}"
+
+def pick (s : St) (w : String) : PiDag := if w == "H" then s.H else s.G
+
 def step (s : St) (line : String) : St × String :=
   match Driver.words line with
   | "tree" :: v :: sc :: rf :: rl :: "T" :: toks =>
@@ -79,6 +120,15 @@ def step (s : St) (line : String) : St × String :=
     let ec := flatEC ls
     let infos := leafInfosTree s.v s.tree (rootCursor s.startClock)
     (s, s!"flat {flatWork ls} {maxFinish infos} {nc.create} {nc.wait} {nc.other} {nc.endT} {ec.end_} {ec.create} {ec.createCont} {ec.waitCont} {ec.otherCont}")
+  | ["dag", nw] =>
+    let G := flatten s.startClock (natOf nw) s.dag
+    ({ s with G := G }, showDag G)
+  | ["shrink", umin, cmax, cmc] =>
+    let H := shrink { uncollapseMin := natOf umin, collapseMax := natOf cmax, collapseMaxCount := natOf cmc } s.G
+    ({ s with H := H }, showDag H)
+  | ["wf", w] => (s, showWf (pick s w))
+  | ["replay", w] => (s, showReplay (pick s w))
+  | ["stat", w] => (s, showStat (pick s w))
   | _ => (s, "bad-op")
 
 def run (_args : List String) : IO UInt32 := do
